@@ -440,7 +440,8 @@ def run():
     ck = core.Check("C23", "fault_enumeration", META["technique"])
     cfgs = configs(core.TIER)
     midwrite = "all"
-    parts = core.pmap(work, [(i, c, midwrite) for i, c in enumerate(cfgs)])
+    parts = core.pmap(work, [(i, c, midwrite) for i, c in enumerate(cfgs)],
+                      chunksize=max(1, len(cfgs) // (4 * core.NPROC)))
     allv = sorted((v for p in parts for v in p.extra.pop("viol")), key=lambda v: (v[0], v[1]))
     first = core.Part()
     for group, _k, example, what, rp in allv:
